@@ -226,6 +226,8 @@ impl Adf {
             .count();
         let mut new_interpretation: Vec<Term> = interpretation.into();
         loop {
+            #[cfg(adf_obdd_verif)]
+            crate::verif::tick();
             let curr_interpretation = new_interpretation.clone();
             let old_t_vals = t_vals;
             for ac in new_interpretation
@@ -505,6 +507,8 @@ impl Adf {
     where
         H: Fn(&Self, (Var, Term), (Var, Term), &[Term]) -> std::cmp::Ordering + Copy,
     {
+        #[cfg(adf_obdd_verif)]
+        crate::verif::tick();
         log::debug!("two_val_model_recursion_depth: {}/{}", depth, interpr.len());
         if let Some((idx, ac)) = interpr
             .iter()
@@ -616,6 +620,8 @@ impl Adf {
     fn update_interpretation_fixpoint(&mut self, interpretation: &[Term]) -> Vec<Term> {
         let mut cur_int = interpretation.to_vec();
         loop {
+            #[cfg(adf_obdd_verif)]
+            crate::verif::tick();
             let new_int = self.update_interpretation(interpretation);
             if cur_int == new_int {
                 return cur_int;
@@ -635,6 +641,8 @@ impl Adf {
         let mut cur_int = interpretation.to_vec();
         *update = false;
         loop {
+            #[cfg(adf_obdd_verif)]
+            crate::verif::tick();
             let new_int = self.update_interpretation(interpretation);
             if cur_int == new_int {
                 return cur_int;
@@ -839,6 +847,8 @@ impl Adf {
 
         log::debug!("start learning loop");
         loop {
+            #[cfg(adf_obdd_verif)]
+            crate::verif::tick();
             log::trace!("interpr: {:?}", cur_interpr);
             log::trace!("choice: {}", choice);
             if choice {
